@@ -4,7 +4,7 @@ import random
 LEVEL = "exploration"
 BATCH = 10
 BATCH_TIMEOUT = 3000
-RULE = ("case = (bus:port width ratio, base address, max_burst_length 2..16, access mix: singles / write bursts / read bursts / "
+RULE = ("[CORE CASES: a share of the cases (names core*) runs the same front-end and oracle on a port of the real LiteDRAMCrossbar + LiteDRAMController with the reference DRAM on DFI, refresh running, DFI protocol events of the reference model added to the witnesses] case = (bus:port width ratio, base address, max_burst_length 2..16, access mix: singles / write bursts / read bursts / "
         "mixed, master behaviour inside write bursts: no gaps | idle gaps between beats | gaps and address/burstcount "
         "scrambled after the first beat (all legal Avalon-MM), memory-side stall profile, seed) with LiteDRAMAvalonMM2Native on "
         "the pulsed core stub; oracle: every accepted write beat (write & !waitrequest) lands exactly once at "
